@@ -5,282 +5,25 @@
 //   cb_enter, cb_exit}*, end(result, final contents of the arguments), destroy*
 // It contains no expectations: spec/LinearityTrace.tla (TLC) judges the log.
 //
-//   c05_linear record OUT seed quick|thorough [only-op]
+//   c05_linear record OUT seed quick|thorough [only-op] [--start N] [--skip op|op] [--seconds N]
+//        --start N    histories with index < N are not run (restart after a crash / hang in history N-1)
+//        --skip       operations not driven any more; --seconds: watchdog per history
 //   c05_linear selftest OUT      deliberately wrong "operations" written in the harness itself
 //                                 (the judge must reject each of them: vacuity guard of the judge)
 #include "c05_common.hpp"
 
-#include <fcppt/loop.hpp>
-#include <fcppt/move_clear.hpp>
-#include <fcppt/move_if_rvalue.hpp>
-#include <fcppt/algorithm/fold.hpp>
-#include <fcppt/algorithm/fold_break.hpp>
-#include <fcppt/algorithm/loop.hpp>
-#include <fcppt/algorithm/map.hpp>
-#include <fcppt/algorithm/map_concat.hpp>
-#include <fcppt/algorithm/map_optional.hpp>
-#include <fcppt/algorithm/remove_if.hpp>
-#include <fcppt/algorithm/reverse.hpp>
-#include <fcppt/algorithm/unique_if.hpp>
-#include <fcppt/container/get_or_insert.hpp>
-#include <fcppt/container/join.hpp>
-#include <fcppt/container/make.hpp>
-#include <fcppt/container/make_move_range.hpp>
-#include <fcppt/container/move_range_impl.hpp>
-#include <fcppt/container/pop_back.hpp>
-#include <fcppt/container/pop_front.hpp>
-#include <fcppt/container/set_difference.hpp>
-#include <fcppt/container/set_intersection.hpp>
-#include <fcppt/container/set_union.hpp>
-#include <fcppt/optional/make.hpp>
-#include <fcppt/optional/object_impl.hpp>
-
-#include <deque>
-#include <list>
-#include <map>
-#include <set>
+#include <algorithm>
+#include <cstdlib>
+#include <cstring>
+#include <stdexcept>
 #include <string>
 #include <utility>
 #include <vector>
-
-namespace c05
-{
-void drive_values();  // c05_values.cpp: optional / either / variant
-void drive_product(); // c05_product.cpp: array / tuple / record
-void drive_nested();  // c05_nested.cpp: grid / tree
-void drive_parsers(); // c05_parsers.cpp: options / parse
-}
 
 namespace
 {
 using namespace c05;
 using vec = std::vector<T>;
-using lst = std::list<T>;
-using deq = std::deque<T>;
-
-std::string shp(char const *kind, int n) { return std::string{kind} + std::to_string(n); }
-
-void drive_algorithm(bool thorough)
-{
-  std::vector<int> const sizes = thorough ? std::vector<int>{0, 1, 2, 3, 5} : std::vector<int>{0, 1, 3};
-  for (int n : sizes)
-  {
-    auto const mk_vec = [n] { return make_seq<vec>(n); };
-    auto const mk_lst = [n] { return make_seq<lst>(n); };
-    auto const mk_deq = [n] { return make_seq<deq>(n); };
-    for_cats<'r', 'l', 'c'>([&](auto c)
-    {
-      constexpr char C = decltype(c)::value;
-      // algorithm::map keeps all elements (with the pass-through continuation)
-      run1<C>("algorithm::map", true, shp("vector->vector:", n), mk_vec,
-              [](auto &&a) { return fcppt::algorithm::map<vec>(C05_FWD(a), pass); });
-      run1<C>("algorithm::map", true, shp("vector->vector/by-value:", n), mk_vec,
-              [](auto &&a) { return fcppt::algorithm::map<vec>(C05_FWD(a), pass_by_value); });
-      run1<C>("algorithm::map", true, shp("list->deque:", n), mk_lst,
-              [](auto &&a) { return fcppt::algorithm::map<deq>(C05_FWD(a), pass); });
-      run1<C>("algorithm::map", true, shp("deque->list:", n), mk_deq,
-              [](auto &&a) { return fcppt::algorithm::map<lst>(C05_FWD(a), pass_read); });
-      // map_optional: every second element is dropped by the continuation
-      run1<C>("algorithm::map_optional", false, shp("vector:", n), mk_vec, [](auto &&a)
-      {
-        int k = 0;
-        return fcppt::algorithm::map_optional<vec>(C05_FWD(a), [&k](auto &&x)
-        {
-          cb_scope const g{C05_RECV(x)};
-          using opt = fcppt::optional::object<T>;
-          return (k++ % 2 == 0) ? opt{T(C05_FWD(x))} : opt{};
-        });
-      });
-      run1<C>("algorithm::map_optional", true, shp("vector-keep-all:", n), mk_vec, [](auto &&a)
-      {
-        return fcppt::algorithm::map_optional<vec>(C05_FWD(a), [](auto &&x)
-        {
-          cb_scope const g{C05_RECV(x)};
-          return fcppt::optional::make(T(C05_FWD(x)));
-        });
-      });
-      // map_concat: the continuation returns a one-element container
-      run1<C>("algorithm::map_concat", true, shp("vector:", n), mk_vec, [](auto &&a)
-      {
-        return fcppt::algorithm::map_concat<vec>(C05_FWD(a), [](auto &&x)
-        {
-          cb_scope const g{C05_RECV(x)};
-          vec r;
-          r.emplace_back(C05_FWD(x));
-          return r;
-        });
-      });
-      // fold: the state is a vector collecting the elements
-      run1<C>("algorithm::fold", true, shp("vector:", n), mk_vec, [](auto &&a)
-      {
-        return fcppt::algorithm::fold(C05_FWD(a), vec{}, [](auto &&x, vec &&state)
-        {
-          cb_scope const g{C05_RECV(x)};
-          state.emplace_back(C05_FWD(x));
-          return std::move(state);
-        });
-      });
-      // fold_break: stops after two elements
-      run1<C>("algorithm::fold_break", false, shp("vector:", n), mk_vec, [](auto &&a)
-      {
-        return fcppt::algorithm::fold_break(C05_FWD(a), vec{}, [](auto &&x, vec &&state)
-        {
-          cb_scope const g{C05_RECV(x)};
-          state.emplace_back(C05_FWD(x));
-          bool const stop = state.size() >= 2U;
-          return std::make_pair(stop ? fcppt::loop::break_ : fcppt::loop::continue_, std::move(state));
-        });
-      });
-      // loop: the body only reads
-      run1<C>("algorithm::loop", false, shp("vector:", n), mk_vec, [](auto &&a)
-      {
-        fcppt::algorithm::loop(C05_FWD(a), [](auto &&x)
-        {
-          cb_scope const g{C05_RECV(x)};
-          (void)x.value();
-        });
-        return nothing{};
-      });
-      run1<C>("algorithm::reverse", true, shp("vector:", n), mk_vec,
-              [](auto &&a) { return fcppt::algorithm::reverse(C05_FWD(a)); });
-      run1<C>("algorithm::reverse", true, shp("list:", n), mk_lst,
-              [](auto &&a) { return fcppt::algorithm::reverse(C05_FWD(a)); });
-      // container::join with one, two and three containers
-      run1<C>("container::join", true, shp("vector:", n), mk_vec,
-              [](auto &&a) { return fcppt::container::join(C05_FWD(a)); });
-    });
-    // make_move_range: an rvalue container whose elements are then handed out as rvalues
-    run1<'r'>("container::make_move_range+map", true, shp("vector:", n), mk_vec, [](auto &&a)
-    { return fcppt::algorithm::map<vec>(fcppt::container::make_move_range(C05_FWD(a)), pass); });
-    run1<'r'>("container::make_move_range+fold", true, shp("vector:", n), mk_vec, [](auto &&a)
-    {
-      return fcppt::algorithm::fold(fcppt::container::make_move_range(C05_FWD(a)), vec{}, [](auto &&x, vec &&state)
-      {
-        cb_scope const g{C05_RECV(x)};
-        state.emplace_back(C05_FWD(x));
-        return std::move(state);
-      });
-    });
-    // operations documented to modify their (lvalue) argument: category "inout"
-    run1<'m'>("container::pop_back", true, shp("vector:", n), mk_vec, [](auto &&a)
-    {
-      auto r = fcppt::container::pop_back(a);
-      return std::make_pair(std::move(r), fcppt::make_cref(a));
-    });
-    run1<'m'>("container::pop_front", true, shp("deque:", n), mk_deq, [](auto &&a)
-    {
-      auto r = fcppt::container::pop_front(a);
-      return std::make_pair(std::move(r), fcppt::make_cref(a));
-    });
-    run1<'m'>("container::pop_front", true, shp("list:", n), mk_lst, [](auto &&a)
-    {
-      auto r = fcppt::container::pop_front(a);
-      return std::make_pair(std::move(r), fcppt::make_cref(a));
-    });
-    run1<'m'>("move_clear", true, shp("vector:", n), mk_vec, [](auto &&a) { return fcppt::move_clear(a); });
-    run1<'m'>("algorithm::remove_if", false, shp("vector:", n), mk_vec, [](auto &&a)
-    {
-      int k = 0;
-      fcppt::algorithm::remove_if(a, [&k](T const &x)
-      {
-        cb_scope const g{C05_RECV(x)};
-        (void)x.value();
-        return k++ % 2 == 0;
-      });
-      return fcppt::make_cref(a);
-    });
-    run1<'m'>("algorithm::unique_if", false, shp("vector:", n), mk_vec, [](auto &&a)
-    {
-      fcppt::algorithm::unique_if(a, [](T const &x, T const &y)
-      {
-        cb_scope const g{C05_RECV(x) + "," + C05_RECV(y)};
-        return (x.value() / 2) == (y.value() / 2);
-      });
-      return fcppt::make_cref(a);
-    });
-    // two-container join, every pair of categories
-    for (int m : sizes)
-    {
-      if (!thorough && m == 1) continue;
-      auto const mk2 = [m] { return make_seq<vec>(m); };
-      std::string const s2 = "vector:" + std::to_string(n) + "+" + std::to_string(m);
-      for_cats<'r', 'l', 'c'>([&](auto c1)
-      {
-        for_cats<'r', 'l', 'c'>([&](auto c2)
-        {
-          run2<decltype(c1)::value, decltype(c2)::value>("container::join", true, s2, mk_vec, mk2,
-              [](auto &&a, auto &&b) { return fcppt::container::join(C05_FWD(a), C05_FWD(b)); });
-        });
-      });
-      // three and four containers: EVERY combination of value categories of every position
-      if (m == n || thorough)
-      {
-        for_cats3([&](auto c1, auto c2, auto c3)
-        {
-          run3<decltype(c1)::value, decltype(c2)::value, decltype(c3)::value>("container::join", true, s2 + "+2", mk_vec, mk2,
-              [] { return make_seq<vec>(2); },
-              [](auto &&a, auto &&b, auto &&cc) { return fcppt::container::join(C05_FWD(a), C05_FWD(b), C05_FWD(cc)); });
-        });
-      }
-      if (m == n && (n == 3 || (thorough && n >= 1)))
-      {
-        for_cats4([&](auto c1, auto c2, auto c3, auto c4)
-        {
-          run4<decltype(c1)::value, decltype(c2)::value, decltype(c3)::value, decltype(c4)::value>("container::join", true,
-              s2 + "+2+1", mk_vec, mk2, [] { return make_seq<vec>(2); }, [] { return make_seq<vec>(1); },
-              [](auto &&a, auto &&b, auto &&cc, auto &&d) { return fcppt::container::join(C05_FWD(a), C05_FWD(b), C05_FWD(cc), C05_FWD(d)); });
-        });
-      }
-    }
-    // get_or_insert: map<int, T> (inout), the created element comes from the continuation
-    for (int key : {1, 7})
-      run1<'m'>("container::get_or_insert", true, shp(key == 1 ? "map-hit:" : "map-miss:", n), [n]
-      {
-        std::map<int, T> m;
-        for (int i = 0; i < n; ++i) m.emplace(i + 1, next_tok());
-        return m;
-      },
-      [key](auto &&a)
-      {
-        T &r = fcppt::container::get_or_insert(a, key, [](int)
-        {
-          cb_scope const g{""};
-          return T(1000);
-        });
-        (void)r;
-        return fcppt::make_cref(a);
-      });
-    // container::make: "creates a container from variadic arguments by moving"
-    if (n == 3)
-    {
-      run3<'r', 'r', 'r'>("container::make", true, "3 elements", [] { return T(next_tok()); }, [] { return T(next_tok()); },
-          [] { return T(next_tok()); },
-          [](auto &&a, auto &&b, auto &&cc) { return fcppt::container::make<vec>(C05_FWD(a), C05_FWD(b), C05_FWD(cc)); });
-    }
-    // set operations take both sets by const reference
-    {
-      auto const mk_set = [n]
-      {
-        std::set<T> s;
-        for (int i = 0; i < n; ++i) s.emplace(next_tok());
-        return s;
-      };
-      run2<'c', 'c'>("container::set_union", true, shp("set:", n), mk_set, mk_set,
-          [](auto &&a, auto &&b) { return fcppt::container::set_union(a, b); });
-      run2<'c', 'c'>("container::set_difference", false, shp("set:", n), mk_set, mk_set,
-          [](auto &&a, auto &&b) { return fcppt::container::set_difference(a, b); });
-      run2<'c', 'c'>("container::set_intersection", false, shp("set:", n), mk_set, mk_set,
-          [](auto &&a, auto &&b) { return fcppt::container::set_intersection(a, b); });
-    }
-  }
-  // move_if_rvalue itself
-  run1<'r'>("move_if_rvalue", true, "element", [] { return T(next_tok()); },
-            [](auto &&a) { return T(fcppt::move_if_rvalue<decltype(a)>(a)); });
-  run1<'l'>("move_if_rvalue", true, "element", [] { return T(next_tok()); },
-            [](auto &&a) { return T(fcppt::move_if_rvalue<decltype(a)>(a)); });
-  run1<'c'>("move_if_rvalue", true, "element", [] { return T(next_tok()); },
-            [](auto &&a) { return T(fcppt::move_if_rvalue<decltype(a)>(a)); });
-}
 
 // ------------------------------------------------------------------ selftest: wrong "operations"
 // written here (not fcppt code) to show that the judge rejects each kind of violation
@@ -366,6 +109,30 @@ void selftest()
     (void)second;
     return nothing{};
   });
+  // an exception escapes the call
+  run1<'r'>("selftest::throws", false, "", mk, [](auto &&a) -> vec
+  {
+    vec r(std::move(a));
+    throw std::runtime_error("selftest");
+  });
+  // copies a value held inside an opaque rvalue argument (only its token is known)
+  if (reset("selftest::opaque-copy", "", "r"))
+    guarded([]
+    {
+      std::vector<T> holder;
+      holder.emplace_back(next_tok());
+      begin("selftest::opaque-copy", false, {opaque('r', {holder.front().raw().tok})});
+      std::vector<T> const copy(holder);
+      end(nothing{}, {{}});
+    });
+  // the result holds an object that was never constructed (a bitwise duplicate)
+  if (reset("selftest::untracked-result", "", "r"))
+    guarded([]
+    {
+      vec a = make_seq<vec>(1);
+      begin("selftest::untracked-result", false, {desc('r', a)});
+      trk::emit("{\"e\":\"end\",\"result\":[{\"obj\":" + std::to_string(a.front().raw().id + 1000) + ",\"tok\":1}],\"args\":[{\"objs\":[]}]}");
+    });
   // an acceptable behaviour, for contrast
   run1<'r'>("selftest::ok", true, "", mk, [](auto &&a)
   {
@@ -374,6 +141,28 @@ void selftest()
     return r;
   });
 }
+}
+
+// the units (separately compiled; a unit that does not compile against the tree under test is replaced by a
+// stub from c05_stub.cpp, see checks/c05.py)
+namespace c05
+{
+void drive_algorithm();       // c05_algorithm.cpp
+void drive_container();       // c05_algorithm.cpp
+void drive_optionals();       // c05_values.cpp
+void drive_optionals_multi(); // c05_values.cpp
+void drive_eithers();         // c05_values.cpp
+void drive_eithers_multi();   // c05_values.cpp
+void drive_variants();        // c05_values.cpp
+void drive_arrays();          // c05_product.cpp
+void drive_tuples();          // c05_product.cpp
+void drive_records();         // c05_product.cpp
+void drive_grids();           // c05_nested.cpp
+void drive_trees();           // c05_nested.cpp
+void drive_options_ctor();    // c05_parsers.cpp (in scope: constructors)
+void drive_parse_ctor();      // c05_parsers.cpp (in scope: constructors)
+void drive_options_parse();   // c05_parsers.cpp (observed only: parse results)
+void drive_parse_results();   // c05_parsers.cpp (observed only: parse results)
 }
 
 int main(int argc, char **argv)
@@ -387,18 +176,49 @@ int main(int argc, char **argv)
   }
   if (argc < 5 || std::string(argv[1]) != "record")
   {
-    std::fprintf(stderr, "usage: c05_linear record OUT seed quick|thorough [only] | selftest OUT\n");
+    std::fprintf(stderr, "usage: c05_linear record OUT seed quick|thorough [only-op] [--start N] [--skip op,op] [--seconds N] | selftest OUT\n");
     return 3;
   }
   vj::open(argv[2]);
-  bool const thorough = std::string(argv[4]) == "thorough";
-  if (argc > 5) c05::only_op() = argv[5];
-  c05::thorough() = thorough;
-  drive_algorithm(thorough);
-  c05::drive_values();
-  c05::drive_product();
-  c05::drive_nested();
-  c05::drive_parsers();
+  c05::thorough() = std::string(argv[4]) == "thorough";
+  trk::history_event_cap() = 5000; // the longest legitimate history has < 200 events (quick), < 1000 (thorough)
+  for (int i = 5; i < argc; ++i)
+  {
+    std::string const a{argv[i]};
+    if (a == "--start" && i + 1 < argc) c05::start_history() = std::atol(argv[++i]);
+    else if (a == "--seconds" && i + 1 < argc) c05::history_seconds() = static_cast<unsigned>(std::atol(argv[++i]));
+    else if (a == "--skip" && i + 1 < argc)
+    {
+      std::string const list{argv[++i]};
+      std::size_t pos = 0;
+      while (pos <= list.size())
+      {
+        std::size_t const next = std::min(list.find('|', pos), list.size());
+        if (next > pos) c05::skip_ops().insert(list.substr(pos, next - pos));
+        pos = next + 1U;
+      }
+    }
+    else if (i == 5) c05::only_op() = a;
+  }
+  c05::drive_algorithm();
+  c05::drive_container();
+  c05::drive_optionals();
+  c05::drive_optionals_multi();
+  c05::drive_eithers();
+  c05::drive_eithers_multi();
+  c05::drive_variants();
+  c05::drive_arrays();
+  c05::drive_tuples();
+  c05::drive_records();
+  c05::drive_grids();
+  c05::drive_trees();
+  c05::drive_options_ctor();
+  c05::drive_parse_ctor();
+  c05::drive_options_parse();
+  c05::drive_parse_results();
+  ::alarm(0U);
+  trk::history_event_cap() = 0;
+  trk::emit("{\"e\":\"done\",\"histories\":" + std::to_string(c05::history_count()) + "}");
   vj::close();
   std::fprintf(stderr, "c05_linear: %ld histories, %ld events\n", c05::history_count(), trk::event_count());
   return 0;
